@@ -262,7 +262,7 @@ def run_concrete(h, case, j, tier='quick'):
         return {'end': 'forked', 'n': len(outs)}
     kind, pc, out, dec, span = outs[0]
     if kind != 'done':
-        return {'end': kind, 'msg': str(out)[:200]}
+        return {'end': kind, 'msg': str(out)[:600]}
     return h.output_json(eng, case, inp, out, None)
 
 
